@@ -221,6 +221,7 @@ catch (...) { \
     }                                                                   \
     *strp = strdup(os.str().c_str());                                   \
     if (*strp == nullptr) {                                             \
+      notify_error(PPL_ERROR_OUT_OF_MEMORY, "strdup() failed");         \
       return PPL_ERROR_OUT_OF_MEMORY;                                   \
     }                                                                   \
     return 0;                                                           \
